@@ -141,7 +141,8 @@ pub struct KindInst {
     pub float: Option<&'static str>,
 }
 
-pub const KINDS: [&str; 28] = [
+pub const KINDS: [&str; 29] = [
+    "unit",
     "hampel", "sg", "daub_analyze", "daub_synth",
     "median", "mean", "max", "min", "bounds", "convolve", "convolve_norm", "delay", "differentiate",
     "integrate", "kalman", "alphabeta", "ema", "emedian", "meanvar", "emeanvar", "threshold",
@@ -149,6 +150,8 @@ pub const KINDS: [&str; 28] = [
 ];
 
 pub fn random_kind(rng: &mut Rng, kind: &'static str) -> KindInst {
+    // a harness rebuilt without its optional features (see Cargo.toml) has no unit-system wrappers
+    let kind = if kind == "unit" && !cfg!(feature = "units") { "cache" } else { kind };
     let n = *rng.pick(&[1usize, 2, 3, 4, 5]);
     let outs2 = || "out=-7,11".to_string();
     let outs3 = || "out=21,22,23".to_string();
@@ -225,6 +228,14 @@ pub fn random_kind(rng: &mut Rng, kind: &'static str) -> KindInst {
             k.slope_input = true;
             format!("peaks_slopes {}", outs3())
         }
+        "unit" => {
+            let inner = *rng.pick(&["median", "mean", "kalman", "schmitt", "ema", "convolve", "delay", "max", "debounce", "integrate"]);
+            let i = random_kind(rng, inner);
+            k.pivots = i.pivots.clone();
+            k.width = i.width;
+            // the wrapped Kalman filter is driven through its one-argument form
+            format!("unit inner={}", i.params)
+        }
         "cache" | "cache2" => {
             let inner = *rng.pick(&["median", "mean", "kalman", "schmitt", "bounds", "ema", "convolve", "meanvar", "debounce"]);
             let i = random_kind(rng, inner);
@@ -255,6 +266,9 @@ pub fn random_input(rng: &mut Rng, k: &KindInst) -> String {
     if !k.pivots.is_empty() && rng.chance(4, 5) {
         let p = *rng.pick(&k.pivots);
         return (p + rng.range(-1, 1)).to_string();
+    }
+    if k.kind == "unit" && k.params.contains("inner=kalman") {
+        return if rng.chance(1, 2) { rng.range(-9, 9).to_string() } else { small_rat(rng, true) };
     }
     if k.kind == "kalman" {
         let z = if rng.chance(1, 2) { rng.range(-9, 9).to_string() } else { small_rat(rng, true) };
@@ -774,9 +788,21 @@ pub fn gen_copy(rng: &mut Rng, tier: &Tier) -> Vec<Case> {
     cases
 }
 
-/// wrapper transparency: `cache(kind)` against the bare kind
+/// wrapper transparency: `cache(kind)` / `unit(kind)` against the bare kind
 pub fn gen_cache(rng: &mut Rng, tier: &Tier) -> Vec<Case> {
     let mut cases = Vec::new();
+    for _ in 0..(if cfg!(feature = "units") { tier.n(150, 1500) } else { 0 }) {
+        let k = random_kind(rng, "unit");
+        let bare = k.params["unit inner=".len()..].to_string();
+        let mut c = vec![format!("new 1 {}", k.params), format!("new 2 {}", bare), "cfg 1".to_string()];
+        for _ in 0..rng.range(1, 2 * k.width as i64 + 4) {
+            let x = random_input(rng, &k);
+            c.push(format!("f 1 {}", x));
+            c.push(format!("f 2 {}", x));
+            c.push("same 1 2 C20.unit-transparent".into());
+        }
+        cases.push(c);
+    }
     for _ in 0..tier.n(150, 1500) {
         let k = random_kind(rng, "cache");
         let bare = k.params["cache inner=".len()..].to_string();
